@@ -63,6 +63,9 @@ size_t vp_high_bytes(void);
 unsigned long vp_malloc_calls(void);
 unsigned long vp_faults_fired(void);
 void   vp_print_end(void);
+void   vp_ledger(size_t *live, size_t *bytes);
+void   vp_print_end_less(size_t dlive_plus, size_t dlive_minus, size_t dbytes_plus, size_t dbytes_minus);
+extern VP_TL void (*vp_sleep_hook)(void);
 void   vp_hex(FILE *f, const uint8_t *p, size_t n);
 /* allocation through the ledger without consuming a fault index (port-internal) */
 void  *vp_raw_alloc(size_t n);
